@@ -2137,10 +2137,7 @@ namespace avel {
 
     [[nodiscard]]
     AVEL_FINL mask4x32f signbit(vec4x32f arg) {
-        #if (defined(AVEL_AVX512VL) && defined(AVEL_AVX512DQ)) || defined(AVEL_AVX10_1)
-        return mask4x32f{_mm_fpclass_ps_mask(decay(arg), 0x40 | 0x04 | 0x10)};
-
-        #elif defined(AVEL_AVX512VL)
+        #if defined(AVEL_AVX512VL) || defined(AVEL_AVX10_1)
         return mask4x32f{_mm_cmplt_epi32_mask(_mm_castps_si128(decay(arg)), _mm_setzero_si128())};
 
         #elif defined(AVEL_SSE2)
